@@ -12,19 +12,21 @@ from .tokrules import PRODS, TOK, is_progress, tokenize_loop
 
 
 def run(chk):
-    tt, nfas = tokrules.r01c(chk)
-    tokrules.r01d(chk)
-    r05a(chk)
-    r05b(chk, tt)
-    r05c(chk, tt)
-    r05d(chk, tt)
-    r05e(chk, tt)
-    r04c(chk, 'R05.f')
-    r05g(chk, tt)
-    r05h(chk)
-    r05i(chk, thorough=chk.tier == 'thorough')
-    r05j(chk)
-    r05k(chk)
+    tt = TokTables(chk.repo)
+    chk.attempt(tokrules.r01c, chk)
+    chk.attempt(tokrules.r01d, chk)
+    chk.attempt(r05a, chk)
+    chk.attempt(r05b, chk, tt)
+    chk.attempt(r05c, chk, tt)
+    chk.attempt(r05d, chk, tt)
+    chk.attempt(r05e, chk, tt)
+    chk.attempt(r04c, chk, 'R05.f')
+    chk.attempt(r05g, chk, tt)
+    chk.attempt(r05h, chk)
+    chk.attempt(r05i, chk, thorough=chk.tier == 'thorough')
+    chk.attempt(r05j, chk)
+    chk.attempt(r05k, chk)
+    chk.attempt(r05l, chk)
 
 
 def r05a(chk, rid='R05.a'):
@@ -612,3 +614,28 @@ def r05k(chk, rid='R05.k'):
         chk.ob(rid, TOK, 'Tokenizer.tokenize', f'{kind} tokens carry their text with the escapes decoded', not b,
                '; '.join(f'{t!r} gives {g!r}' for t, g in b[:2]) + f' ({len(b)} samples): the same {kind} written with an escape is another value in the DOM')
     chk.extra['escape_samples'] = n
+
+
+def r05l(chk, rid='R05.l'):
+    chk.rule(rid, 'end-of-input completion, decided by evaluation of Tokenizer.tokenize (as in R05.i): in full-sheet mode a text that ends inside a comment, a string of either quote kind, or a url( in any state - nothing after the parenthesis, an unquoted part, an open or closed string of either quote kind, white space after either - comes out as one COMMENT, STRING or URI token that covers the text and is closed with the missing characters, followed by exactly one EOF token; in fragment mode nothing is completed and no EOF is produced')
+    from sa.absint import Raised
+
+    cases = [('/*abc', 'COMMENT', '/*abc*/'), ('/*', 'COMMENT', '/**/'), ('/*a*', 'COMMENT', '/*a**/'), ('"abc', 'STRING', '"abc"'), ("'abc", 'STRING', "'abc'"), ('"', 'STRING', '""'), ('"a\\"', 'STRING', '"a\\""'),
+             ('url(', 'URI', 'url()'), ('url(a', 'URI', 'url(a)'), ('url( a', 'URI', 'url( a)'), ('url(a ', 'URI', 'url(a )'), ('url("a', 'URI', 'url("a")'), ("url('a", 'URI', "url('a')"), ('url("a"', 'URI', 'url("a")'),
+             ("url('a'", 'URI', "url('a')"), ('url("a" ', 'URI', 'url("a" )'), ("url( 'a' ", 'URI', "url( 'a' )"), ('url( "a', 'URI', 'url( "a")'), ('URL(a', 'URI', 'URL(a)'), ('url("a\\"', 'URI', 'url("a\\"")'), ('url("', 'URI', 'url("")')]
+    n = 0
+    for lead in ('', 'x '):
+        for text_, kind, value in cases:
+            full = tokenize_text(chk.repo, lead + text_, fullsheet=True)
+            frag = tokenize_text(chk.repo, lead + text_, fullsheet=False)
+            n += 1
+            if isinstance(full, Raised) or isinstance(frag, Raised):
+                chk.ob(rid, TOK, 'Tokenizer.tokenize', f'{lead + text_!r} is tokenised', False, f'{full!r} / {frag!r}')
+                continue
+            body = [(t[0], t[1]) for t in full]
+            want = ([('IDENT', 'x'), ('S', ' ')] if lead else []) + [(kind, value), ('EOF', '')]
+            chk.ob(rid, TOK, 'Tokenizer.tokenize', f'full sheet: {lead + text_!r} ends in one {kind} token {value!r} and one EOF', body == want, f'tokens {body}', trivial=True)
+            fb = [(t[0], t[1]) for t in frag]
+            ok = not [t for t in fb if t[0] == 'EOF'] and (kind, value) not in fb
+            chk.ob(rid, TOK, 'Tokenizer.tokenize', f'fragment: {lead + text_!r} is not completed, no EOF', ok, f'tokens {fb}', trivial=True)
+    chk.extra['completion_cases'] = n
